@@ -302,8 +302,10 @@ pub fn execute(set: &dyn DynSet, xi: &[u8; 32], xi_other: &[u8; 32], ops: &[Op],
         };
     }
 
+    let _watch = watch::enter("history start", || json!({"set": info.name, "seed_xi": hx(xi), "other_seed_xi": hx(xi_other), "ops": ops.iter().map(|o| o.to_json()).collect::<Vec<_>>()}).to_string());
     for (i, op) in ops.iter().enumerate() {
         st.ops += 1;
+        watch::touch(i, || format!("operation {i} ({}) of a history on {}", op.name(), info.name));
         match op {
             Op::SkReload { src, fault } => {
                 let s = &sks[src % sks.len()];
@@ -894,6 +896,24 @@ pub fn gen_bulk_history(p: &mut Prng, n: usize, verify_every: usize) -> Vec<Op> 
     ops
 }
 
+/// Degenerate stored key: the private key's write was lost (the store reads back 0x00 everywhere) or the bus
+/// was stuck on one byte value; where the library accepts such an artefact the party then signs with it. These
+/// keys (every secret coefficient at its bound, t0 at its maximum) drive the rejection loop through dozens to
+/// hundreds of rounds per signature - the loop counter's whole range is only visited here.
+pub fn gen_lost_key_history(p: &mut Prng, n_signs: usize) -> Vec<Op> {
+    let fault = if p.chance(1, 2) {
+        Fault::Lost(0x00)
+    } else {
+        Fault::Pattern { kind: 4 + *p.pick(&[0x44u16, 0x22, 0x11, 0x00, 0x33, 0x01, 0x24, 0x12]), off: 0, len: 0 }
+    };
+    let mut ops = vec![Op::SkReload { src: 0, fault: Some(fault) }, Op::PkDerive { src: 1 }, Op::SkToBytes { src: 1 }];
+    for _ in 0..n_signs {
+        let ml = *p.pick(&[0usize, 1, 5, 32, 200]);
+        ops.push(Op::Sign { sk: 1, msg: p.bytes(ml), ctx: vec![], mode: *p.pick(&MODES), rnd: p.array32(), via_os: false });
+    }
+    ops
+}
+
 struct RunOut {
     stats: Stats,
     viols: Vec<Violation>,
@@ -920,6 +940,7 @@ pub fn run(ctx: &Ctx) -> i32 {
         Some("C07") => "C07",
         _ => harness_error("world: --prop C01|C06|C07|C09|C11|C13 required"),
     };
+    watch::set_judging_returns(prop == "C13");
     let all = sets::sets();
     let n: u64 = match ctx.tier {
         Tier::Quick => ctx.scaled(5000),
@@ -944,15 +965,24 @@ pub fn run(ctx: &Ctx) -> i32 {
         ("C01", Tier::Thorough) => ctx.scaled(1500),
         _ => 0,
     };
-    let outs = run_indexed((n + n_short + n_ladder + n_bulk) as usize, ctx.workers, |i| {
+    // degenerate stored keys: 12 signatures per history
+    let n_lost: u64 = match (prop, ctx.tier) {
+        ("C13", Tier::Quick) => ctx.scaled(240),
+        ("C13", Tier::Thorough) => ctx.scaled(3000),
+        _ => 0,
+    };
+    let outs = run_indexed((n + n_short + n_ladder + n_bulk + n_lost) as usize, ctx.workers, |i| {
         let short = (i as u64) >= n && (i as u64) < n + n_short;
         let ladder = (i as u64) >= n + n_short && (i as u64) < n + n_short + n_ladder;
-        let bulk = (i as u64) >= n + n_short + n_ladder;
-        let mut p = Prng::for_run(ctx.seed, if ladder { "world-ladder" } else if short { "world-short" } else { "world" }, i as u64);
+        let bulk = (i as u64) >= n + n_short + n_ladder && (i as u64) < n + n_short + n_ladder + n_bulk;
+        let lost = (i as u64) >= n + n_short + n_ladder + n_bulk;
+        let mut p = Prng::for_run(ctx.seed, if lost { "world-lost-key" } else if ladder { "world-ladder" } else if short { "world-short" } else { "world" }, i as u64);
         let set = all[i % all.len()];
         let xi = p.array32();
         let xi_other = p.array32();
-        let ops = if bulk {
+        let ops = if lost {
+            gen_lost_key_history(&mut p, 12)
+        } else if bulk {
             gen_bulk_history(&mut p, 400, if prop == "C01" { 1 } else { 0 })
         } else if ladder { gen_size_ladder(&mut p) } else if short { gen_short_history(&mut p, set) } else { gen_history(&mut p, set) };
         let mut stats = Stats::default();
@@ -1040,7 +1070,7 @@ pub fn run(ctx: &Ctx) -> i32 {
         samples,
         exhaustive: false,
         extra: json!({
-            "histories": n, "short_histories": n_short, "size_ladder_histories": n_ladder, "bulk_signing_histories": n_bulk, "runs": n + n_short + n_ladder + n_bulk,
+            "histories": n, "short_histories": n_short, "size_ladder_histories": n_ladder, "bulk_signing_histories": n_bulk, "degenerate_stored_key_histories": n_lost, "runs": n + n_short + n_ladder + n_bulk + n_lost,
             "runs_per_hour": if wall > 0.0 { (n as f64 / wall * 3600.0) as u64 } else { 0 },
             "operations": tot.ops, "signatures_made": tot.signs, "verifications": tot.verifies,
             "loads_from_store": tot.loads, "loads_rejected": tot.rejected_loads, "restarts": tot.restarts,
